@@ -615,6 +615,14 @@ def _p_is_orthonormal(ctx, r, rng):
     u = gen.haar(rng, d, real=not cplx)
     rows = u[:k, :].copy()
     ask(ctx, "is_orthonormal", (rows,), True, "pos", d, cplx, nt=False)
+    # fewer vectors than the dimension: the k x k Gram matrix is the identity, the d x d frame operator is not (a single vector is rejected by
+    # is_mutually_orthogonal, "at least two vectors", by design - not probed)
+    for k2 in sorted({d - 1, d - 2} - {0, 1, -1}):
+        ask(ctx, "is_orthonormal", (u[:k2, :].copy(),), True, "pos-fewer-than-dimension", d, cplx)
+    if d >= 3:
+        short = u[: d - 1, :].copy()
+        short[0] *= 1 + max(delta, 1e-3)
+        ask(ctx, "is_orthonormal", (short,), False, "neg-fewer-than-dimension-not-normalised", d, cplx)
     v = gen.haar(rng, d, real=not cplx)
     ask(ctx, "is_orthonormal", (rows @ v,), True, "pos-rotated", d, cplx)
     bad = rows.copy()
